@@ -1,6 +1,7 @@
 /* C20 kernel harness (mode H): the events the writer sends to libxml2 for a location, the init reference, a transition
    and a whole template mirror the document objects (statement of the property). */
 #include "lit_ids.h"
+#include "xw_members.h"
 #define REACH __CPROVER_assert(0, "reach")
 extern int verif_thrown;
 enum { VS_LIT = 1, VS_EXPR, VS_EXPR_TAIL, VS_SYMNAME, VS_NUM, VS_IDREF, VS_NUMCAT, VS_SELECT, VS_OTHER, VS_PREFIX5 };
@@ -11,6 +12,8 @@ void w20_location_set(int i, int nr, int sym, unsigned nameflags, int committed,
 void w20_edge_set(int i, int src, int dst, int control, int nsel, int guard, unsigned gf, int sync, unsigned sf, int assign, unsigned af, int prob, unsigned pf);
 void w20_template_set(int is_ta, int nloc, int nedge, int init_loc);
 void w20_call(int which, int i);
+void w20_member_set(int i, int v);
+int w20_member_get(int i);
 int w20_nev(void);
 int w20_balanced(void);
 int w20_starts(int lit);
@@ -51,6 +54,34 @@ static int expr_label_ok(int n, int kind, int e, unsigned f)
     if (e == 0 || (f & F_IS_ONE)) return 1;
     return has_label(n, kind, (f & F_ONE_AND_PREFIX) ? VS_EXPR_TAIL : VS_EXPR, e);
 }
+/* The writer's state: every scalar data member of the real class XMLWriter holds an arbitrary small value.  The id a location
+   is written with may depend on that state; what the property needs is that the same state gives every location of a template
+   its own id and that init / source / target refer to a location by exactly the id location() wrote for it. */
+struct wstate { int m[4]; };
+static struct wstate any_state(void)
+{
+    struct wstate s;
+    for (int i = 0; i < 4; i++) { __CPROVER_assume(s.m[i] >= 0 && s.m[i] <= 1000); if (i >= XW_NMEMB) s.m[i] = 0; }
+    return s;
+}
+static void enter(const struct wstate* s)
+{
+    w20_reset();
+    for (int i = 0; i < XW_NMEMB; i++) w20_member_set(i, s->m[i]);
+}
+static int state_kept(const struct wstate* s)
+{
+    for (int i = 0; i < XW_NMEMB; i++) if (w20_member_get(i) != s->m[i]) return 0;
+    return 1;
+}
+/* the id number the REAL location() writes for location i in state s (-1: no id<number> attribute) */
+static int id_written_for(const struct wstate* s, int i)
+{
+    enter(s);
+    w20_call(0, i);
+    if (w20_attr(LIT_LOCATION, LIT_ID, 0) != 1 || w20_attr(LIT_LOCATION, LIT_ID, 1) != VS_IDREF) return -1;
+    return w20_attr(LIT_LOCATION, LIT_ID, 2);
+}
 struct loc { int nr, sym, com, urg, inv, rate; unsigned nf, invf, ratef; };
 static struct loc any_loc(int i, int nr)
 {
@@ -63,14 +94,19 @@ static struct loc any_loc(int i, int nr)
 }
 void h_c20_location(void)
 {
-    w20_reset();
-    int nr; __CPROVER_assume(nr >= 0 && nr <= 3);
-    struct loc l = any_loc(0, nr);
+    struct wstate s = any_state();
+    int nr, nr2; __CPROVER_assume(nr >= 0 && nr <= 3 && nr2 >= 0 && nr2 <= 3 && nr2 != nr);
+    struct loc l = any_loc(0, nr), l2 = any_loc(1, nr2);
+    __CPROVER_assume(l.sym != l2.sym);
+    int id2 = id_written_for(&s, 1);
+    enter(&s);
     w20_call(0, 0);
     int n = w20_nev();
     __CPROVER_assert(verif_thrown == 0 && n >= 2 && OP(0) == EV_START && NAME(0) == LIT_LOCATION && OP(n - 1) == EV_END && balanced(n), "c20.location.one-well-nested-location-element");
     __CPROVER_assert(count_start(n, LIT_LOCATION) == 1, "c20.location.exactly-one-location-element");
-    __CPROVER_assert(has_attr(n, LIT_ID, VS_IDREF, l.nr), "c20.location.id-attribute-is-id<nr>-(unique-because-numbers-are-dense)");
+    int id1 = (w20_attr(LIT_LOCATION, LIT_ID, 0) == 1 && w20_attr(LIT_LOCATION, LIT_ID, 1) == VS_IDREF) ? w20_attr(LIT_LOCATION, LIT_ID, 2) : -1;
+    __CPROVER_assert(id1 >= 0 && id2 >= 0 && id1 != id2, "c20.location.id-attribute-is-id<number>,-different-for-locations-with-different-numbers");
+    __CPROVER_assert(state_kept(&s), "c20.location.writing-a-location-leaves-the-writer's-scalar-state-alone");
     int named = w20_starts(LIT_NAME) == 1 && w20_text(LIT_NAME, 0) == 1 && w20_text(LIT_NAME, 1) == VS_SYMNAME && w20_text(LIT_NAME, 2) == l.sym;
     __CPROVER_assert(named, "c20.location.name-element-carries-the-location's-name");
     __CPROVER_assert(expr_label_ok(n, LIT_INVARIANT, l.inv, l.invf), "c20.location.invariant-label-carries-the-text-of-the-invariant");
@@ -80,15 +116,18 @@ void h_c20_location(void)
 }
 void h_c20_init(void)
 {
-    w20_reset();
+    struct wstate s = any_state();
     struct loc a = any_loc(0, 0), b = any_loc(1, 1);
     __CPROVER_assume(a.sym != b.sym);
     int k; __CPROVER_assume(k == 0 || k == 1);
     w20_template_set(1, 2, 0, k);
+    int idk = id_written_for(&s, k);
+    enter(&s);
     w20_call(1, 0);
     int n = w20_nev();
-    __CPROVER_assert(n == 3 && OP(0) == EV_START && NAME(0) == LIT_INIT && OP(1) == EV_ATTR && NAME(1) == LIT_REF && VTAG(1) == VS_IDREF && VA(1) == k && OP(2) == EV_END,
+    __CPROVER_assert(n == 3 && OP(0) == EV_START && NAME(0) == LIT_INIT && OP(1) == EV_ATTR && NAME(1) == LIT_REF && VTAG(1) == VS_IDREF && idk >= 0 && VA(1) == idk && OP(2) == EV_END,
                      "c20.init.exactly-one-init-element-referring-to-the-initial-location");
+    __CPROVER_assert(state_kept(&s), "c20.init.writing-the-init-reference-leaves-the-writer's-scalar-state-alone");
     REACH;
 }
 #define OKF(f) ((f) == 0 || (f) == 1 || (f) == 2 || (f) == 16)
@@ -104,10 +143,14 @@ static struct edge any_edge(int i, int allow_bp)
 }
 static void transition(int kf_class)
 {
-    w20_reset();
+    struct wstate s = any_state();
     struct loc a = any_loc(0, 0), b = any_loc(1, 1);
     __CPROVER_assume(a.sym != b.sym);
     struct edge e = any_edge(0, 0);
+    int ids[2];
+    ids[0] = id_written_for(&s, 0);
+    ids[1] = id_written_for(&s, 1);
+    enter(&s);
 #ifdef EXCLUDE_KF
     __CPROVER_assume(!KF1_CLASS(e) && !KF2_CLASS(e) && !KF3_CLASS(e));
 #endif
@@ -115,9 +158,9 @@ static void transition(int kf_class)
     w20_call(2, 0);
     int n = w20_nev();
     __CPROVER_assert(verif_thrown == 0 && n >= 2 && OP(0) == EV_START && NAME(0) == LIT_TRANSITION && OP(n - 1) == EV_END && balanced(n), "c20.transition.one-well-nested-transition-element");
-    __CPROVER_assert(w20_starts(LIT_SOURCE) == 1 && w20_attr(LIT_SOURCE, LIT_REF, 0) == 1 && w20_attr(LIT_SOURCE, LIT_REF, 1) == VS_IDREF && w20_attr(LIT_SOURCE, LIT_REF, 2) == e.src,
+    __CPROVER_assert(w20_starts(LIT_SOURCE) == 1 && w20_attr(LIT_SOURCE, LIT_REF, 0) == 1 && w20_attr(LIT_SOURCE, LIT_REF, 1) == VS_IDREF && ids[e.src] >= 0 && w20_attr(LIT_SOURCE, LIT_REF, 2) == ids[e.src],
                      "c20.transition.source-refers-to-the-edge's-source-location");
-    __CPROVER_assert(w20_starts(LIT_TARGET) == 1 && w20_attr(LIT_TARGET, LIT_REF, 0) == 1 && w20_attr(LIT_TARGET, LIT_REF, 1) == VS_IDREF && w20_attr(LIT_TARGET, LIT_REF, 2) == e.dst,
+    __CPROVER_assert(w20_starts(LIT_TARGET) == 1 && w20_attr(LIT_TARGET, LIT_REF, 0) == 1 && w20_attr(LIT_TARGET, LIT_REF, 1) == VS_IDREF && ids[e.dst] >= 0 && w20_attr(LIT_TARGET, LIT_REF, 2) == ids[e.dst],
                      "c20.transition.target-refers-to-the-edge's-target-location");
     __CPROVER_assert(expr_label_ok(n, LIT_GUARD, e.guard, e.gf), "c20.transition.guard-label-carries-the-text-of-the-guard");
     __CPROVER_assert(expr_label_ok(n, LIT_SYNCHRONISATION, e.sync, e.sf), "c20.transition.synchronisation-label-carries-the-text-of-the-sync");
@@ -126,6 +169,7 @@ static void transition(int kf_class)
     __CPROVER_assert(e.nsel == 0 || has_label(n, LIT_SELECT, VS_SELECT, 6), "c20.transition.select-label-for-the-first-select");
     __CPROVER_assert(count_labels(n, LIT_SELECT) == (e.nsel > 0) || e.nsel < 2, "c20.transition.every-select-is-written");
     __CPROVER_assert(e.nsel < 2 || has_label(n, LIT_SELECT, VS_SELECT, 7) || count_labels(n, LIT_SELECT) >= 2, "c20.transition.the-second-select-is-written");
+    __CPROVER_assert(state_kept(&s), "c20.transition.writing-a-transition-leaves-the-writer's-scalar-state-alone");
     __CPROVER_assert(e.control || (w20_attr(LIT_TRANSITION, LIT_CONTROLLABLE, 0) >= 1 && w20_attr(LIT_TRANSITION, LIT_CONTROLLABLE, 2) == LIT_FALSE), "c20.transition.controllable-attribute-reflects-an-uncontrollable-edge");
     REACH;
 }
@@ -133,7 +177,8 @@ void h_c20_transition(void) { transition(0); }
 
 void h_c20_transition_branchpoint(void)
 {
-    w20_reset();
+    struct wstate s = any_state();
+    enter(&s);
     struct loc a = any_loc(0, 0), b = any_loc(1, 1);
     struct edge e = any_edge(0, 1);
 #ifdef EXCLUDE_KF
@@ -147,7 +192,8 @@ void h_c20_transition_branchpoint(void)
    the content of locations and transitions is the subject of the jobs above */
 static void template_shape(int ta, int nl, int ne, int k, int s0, int d0, int s1, int d1)
 {
-    w20_reset();
+    struct wstate s = any_state();
+    enter(&s);
     w20_location_set(0, 0, 1, 0, 0, 0, 0, 0, 0, 0);
     w20_location_set(1, 1, 2, 0, 0, 0, 0, 0, 0, 0);
     w20_edge_set(0, s0, d0, 1, 0, 0, 0, 0, 0, 0, 0, 0, 0);
@@ -158,7 +204,14 @@ static void template_shape(int ta, int nl, int ne, int k, int s0, int d0, int s1
     if (!ta) { __CPROVER_assert(n == 0, "c20.template.non-TA-templates-are-skipped"); return; }
     __CPROVER_assert(n >= 2 && OP(0) == EV_START && NAME(0) == LIT_TEMPLATE && OP(n - 1) == EV_END && balanced(n), "c20.template.one-well-nested-template-element");
     __CPROVER_assert(count_start(n, LIT_LOCATION) == nl, "c20.template.one-location-element-per-location");
-    __CPROVER_assert(count_start(n, LIT_INIT) == 1 && has_attr(n, LIT_REF, VS_IDREF, k), "c20.template.exactly-one-init-reference-to-the-initial-location");
+    /* the ids as written: the attribute event right after the start of the j-th location element */
+    int lid[2] = {-1, -1}, nlid = 0;
+    for (int i = 0; i + 1 < MAXEV; i++) if (i + 1 < n && OP(i) == EV_START && NAME(i) == LIT_LOCATION && nlid < 2) {
+        if (OP(i + 1) == EV_ATTR && NAME(i + 1) == LIT_ID && VTAG(i + 1) == VS_IDREF) lid[nlid] = VA(i + 1);
+        nlid++;
+    }
+    __CPROVER_assert(lid[0] >= 0 && (nl < 2 || (lid[1] >= 0 && lid[1] != lid[0])), "c20.template.every-location-element-has-its-own-id");
+    __CPROVER_assert(count_start(n, LIT_INIT) == 1 && has_attr(n, LIT_REF, VS_IDREF, lid[k]), "c20.template.exactly-one-init-reference-to-the-initial-location");
     __CPROVER_assert(count_start(n, LIT_TRANSITION) == ne, "c20.template.one-transition-per-edge");
     int last_loc = -1, init_at = -1, first_tr = MAXEV, tr0 = -1, tr1 = -1;
     for (int i = 0; i < MAXEV; i++) if (i < n && OP(i) == EV_START) {
@@ -167,7 +220,7 @@ static void template_shape(int ta, int nl, int ne, int k, int s0, int d0, int s1
         if (NAME(i) == LIT_TRANSITION) { if (first_tr == MAXEV) first_tr = i; if (tr0 < 0) tr0 = i; else if (tr1 < 0) tr1 = i; }
     }
     __CPROVER_assert(last_loc < init_at && init_at < first_tr, "c20.template.locations,-then-init,-then-transitions");
-    if (ne == 2) __CPROVER_assert(VA(tr0 + 2) == s0 && VA(tr0 + 5) == d0 && VA(tr1 + 2) == s1 && VA(tr1 + 5) == d1, "c20.template.transitions-are-written-in-edge-order");
+    if (ne == 2) __CPROVER_assert(VA(tr0 + 2) == lid[s0] && VA(tr0 + 5) == lid[d0] && VA(tr1 + 2) == lid[s1] && VA(tr1 + 5) == lid[d1], "c20.template.transitions-are-written-in-edge-order");
 }
 void h_c20_template(void)
 {
